@@ -102,6 +102,22 @@ inline std::string face_report(const gr_face *face, const ReportOpts &ro) {
             gr_featureval_destroy(fv);
         }
     }
+    {   // an unbound set (gr_featureval_clone(NULL)): set the first, then the last feature (the set has to grow), read everything back
+        gr_feature_val *u = gr_featureval_clone(nullptr);
+        if (u && nf) {
+            std::string us = "[";
+            for (unsigned pick : {0u, nf - 1, nf / 2}) {
+                const gr_feature_ref *fr = gr_face_fref(face, uint16_t(pick));
+                if (!fr) continue;
+                unsigned nv = gr_fref_n_values(fr);
+                uint16_t v = nv ? uint16_t(gr_fref_value(fr, uint16_t(nv - 1))) : 1;
+                int ok = gr_fref_set_feature_value(fr, v, u);
+                us += std::to_string(ok) + ":" + std::to_string(gr_fref_feature_value(fr, u)) + (ok && gr_fref_feature_value(fr, u) != v ? "!LOST" : "") + ",";
+            }
+            s += "},\"unbound\":{\"sets\":\"" + us + "]\",\"vals\":" + featureval_json(face, u);
+        }
+        if (u) gr_featureval_destroy(u);
+    }
     s += "},\"find_absent\":" + std::to_string(int(gr_face_find_fref(face, 0x7A7A7A7Au) != nullptr));
     s += ",\"info\":[";
     for (size_t i = 0; i < ro.scripts.size(); ++i) {
